@@ -147,6 +147,19 @@ class ConcreteCtx:
     def sin(self, x): return math.sin(x)
     def tan(self, x): return math.tan(x)
     def num(self, x): return float(x)
+
+    def frac(self, x):
+        """x modulo 1, in [0, 1)"""
+        return float(x) % 1.0
+
+    def floor(self, x):
+        return math.floor(x)
+
+    def idiv(self, x, k):
+        return int(x) // k
+
+    def imod(self, x, k):
+        return int(x) % k
     def absval(self, x): return abs(x)
     def is_symbolic(self, x): return False
     def term(self, x): return float(x)
